@@ -66,7 +66,13 @@ class Seams:
         if self.log is not None:
             self.log.append((kind, info))
         p = self.plan
-        if p is not None and p["at"] == idx and (p.get("only") is None or kind in p["only"]):
+        if p is not None and p.get("only") is not None:
+            # "the at-th call among the listed kinds"
+            if kind not in p["only"]:
+                return
+            idx = p.get("_seen", 0)
+            p["_seen"] = idx + 1
+        if p is not None and p["at"] == idx:
             self.plan = None
             self.fired.append((kind, idx, p["exc"]))
             raise make_exc(p["exc"], kind, info)
